@@ -1,5 +1,883 @@
 package rules
 
+import (
+	"fmt"
+	"go/token"
+	"go/types"
+	"strings"
+
+	"golang.org/x/tools/go/ssa"
+
+	"verif/checker/core"
+)
+
+// Order-insensitivity classifier for iterations whose order Go randomises
+// (DESIGN 3.7). A loop over a map (range, reflect MapRange, reflect Seq2,
+// the package's own property iterator) is order-insensitive when its body only
+//   (a) inserts into / deletes from a map with a key taken from the current element, or stores a constant,
+//   (b) sets flags to constants, counts, or accumulates into a slice that is sorted before use
+//       or only measured / used for an error text,
+//   (c) calls functions that emit nothing into an ordered sink,
+//   (d) leaves early only by returning an error or a constant.
+// Anything else - bytes written to a buffer or hash, an element-derived value
+// assigned to an outer variable, a break that keeps the current element - is
+// order-sensitive and reported.
+
+type randLoop struct {
+	fn     *ssa.Function
+	at     ssa.Instruction // the Range / MapRange call / iterator call
+	kind   string
+	blocks map[*ssa.BasicBlock]bool // loop body blocks (same function), or nil when the body is a closure
+	body   *ssa.Function            // yield closure for range-over-func
+	header *ssa.BasicBlock
+	elems  []ssa.Value // values that denote the current key / value
+}
+
+func (c *Ctx) randomLoops(fn *ssa.Function) []*randLoop {
+	var out []*randLoop
+	core.EachInstr(fn, func(i ssa.Instruction) {
+		switch x := i.(type) {
+		case *ssa.Range:
+			if _, isMap := x.X.Type().Underlying().(*types.Map); !isMap {
+				return
+			}
+			// the Next that consumes it
+			if x.Referrers() == nil {
+				return
+			}
+			for _, r := range *x.Referrers() {
+				nx, ok := r.(*ssa.Next)
+				if !ok {
+					continue
+				}
+				l := &randLoop{fn: fn, at: x, kind: "range over map", header: nx.Block()}
+				l.blocks = loopBlocks(nx.Block())
+				if nx.Referrers() != nil {
+					for _, r2 := range *nx.Referrers() {
+						if ex, ok := r2.(*ssa.Extract); ok && ex.Index >= 1 {
+							l.elems = append(l.elems, ex)
+						}
+					}
+				}
+				out = append(out, l)
+			}
+		case *ssa.Call:
+			key := core.CalleeKey(&x.Call)
+			switch {
+			case key == "reflect.Value.MapRange":
+				// for iter.Next() { ... }: find the Next call and its loop
+				if x.Referrers() == nil {
+					return
+				}
+				core.EachInstr(fn, func(j ssa.Instruction) {
+					nc, ok := j.(*ssa.Call)
+					if !ok || core.CalleeKey(&nc.Call) != "reflect.MapIter.Next" || !flowsTo(x, nc.Call.Args[0]) {
+						return
+					}
+					l := &randLoop{fn: fn, at: x, kind: "reflect MapRange", header: nc.Block()}
+					l.blocks = loopBlocks(nc.Block())
+					core.EachInstr(fn, func(k ssa.Instruction) {
+						if kc, ok := k.(*ssa.Call); ok {
+							kk := core.CalleeKey(&kc.Call)
+							if (kk == "reflect.MapIter.Key" || kk == "reflect.MapIter.Value") && flowsTo(x, kc.Call.Args[0]) {
+								l.elems = append(l.elems, kc)
+							}
+						}
+					})
+					out = append(out, l)
+				})
+			case x.Call.StaticCallee() == nil && !x.Call.IsInvoke():
+				// range-over-func: iterator(yieldClosure)
+				if len(x.Call.Args) != 1 {
+					return
+				}
+				mc, ok := x.Call.Args[0].(*ssa.MakeClosure)
+				if !ok {
+					return
+				}
+				body, ok := mc.Fn.(*ssa.Function)
+				if !ok || !strings.Contains(body.Synthetic, "range-over-func") {
+					return
+				}
+				if !c.iteratorIsRandom(x.Call.Value) {
+					return
+				}
+				l := &randLoop{fn: fn, at: x, kind: "range over a randomised iterator", body: body}
+				for _, p := range body.Params {
+					l.elems = append(l.elems, p)
+				}
+				out = append(out, l)
+			}
+		}
+	})
+	return out
+}
+
+// iteratorIsRandom: the iterator value comes from reflect Seq/Seq2, maps.Keys/Values/All,
+// or a package function whose own body iterates randomly and yields.
+func (c *Ctx) iteratorIsRandom(v ssa.Value) bool {
+	for _, s := range traceSources(v) {
+		call, ok := s.(*ssa.Call)
+		if !ok {
+			continue
+		}
+		key := core.CalleeKey(&call.Call)
+		switch key {
+		case "reflect.Value.Seq2", "reflect.Value.Seq", "maps.Keys", "maps.Values", "maps.All":
+			// ordered again when wrapped by slices.Sorted - but then it is not ranged over directly
+			return true
+		}
+		if callee := call.Call.StaticCallee(); callee != nil && c.P.InPkg(callee) {
+			for _, f := range core.WithAnon(callee) {
+				if len(c.randomLoopsShallow(f)) > 0 {
+					return true
+				}
+			}
+		}
+	}
+	return false
+}
+
+func (c *Ctx) randomLoopsShallow(fn *ssa.Function) []ssa.Instruction {
+	var out []ssa.Instruction
+	core.EachInstr(fn, func(i ssa.Instruction) {
+		switch x := i.(type) {
+		case *ssa.Range:
+			if _, isMap := x.X.Type().Underlying().(*types.Map); isMap {
+				out = append(out, x)
+			}
+		case *ssa.Call:
+			key := core.CalleeKey(&x.Call)
+			if key == "reflect.Value.MapRange" || key == "reflect.Value.Seq2" || key == "reflect.Value.Seq" {
+				out = append(out, x)
+			}
+		}
+	})
+	return out
+}
+
+// loopBlocks: the header plus the body region of the loop - every block
+// dominated by the body entry (the successor taken while the iteration has
+// elements). Blocks that always leave the loop (break, return) are part of the
+// region, unlike in the natural loop.
+func loopBlocks(header *ssa.BasicBlock) map[*ssa.BasicBlock]bool {
+	out := map[*ssa.BasicBlock]bool{header: true}
+	if len(header.Succs) != 2 {
+		return out
+	}
+	entry := header.Succs[0]
+	for _, b := range header.Parent().Blocks {
+		if entry.Dominates(b) {
+			out[b] = true
+		}
+	}
+	return out
+}
+
+type orderIssue struct {
+	at  ssa.Instruction
+	msg string
+}
+
+func (c *Ctx) elemDerived(v ssa.Value, l *randLoop, depth int) bool {
+	if depth == 0 || v == nil {
+		return false
+	}
+	for _, e := range l.elems {
+		if v == e {
+			return true
+		}
+	}
+	switch x := v.(type) {
+	case *ssa.Call:
+		for _, a := range x.Call.Args {
+			if c.elemDerived(a, l, depth-1) {
+				return true
+			}
+		}
+	case *ssa.UnOp:
+		if cell := resolveCell(x.X); cell != nil && x.Op == token.MUL {
+			for _, sv := range cellStores(cell) {
+				if c.elemDerived(sv, l, depth-1) {
+					return true
+				}
+			}
+			return false
+		}
+		return c.elemDerived(x.X, l, depth-1)
+	case *ssa.BinOp:
+		return c.elemDerived(x.X, l, depth-1) || c.elemDerived(x.Y, l, depth-1)
+	case *ssa.Phi:
+		for _, e := range x.Edges {
+			if c.elemDerived(e, l, depth-1) {
+				return true
+			}
+		}
+	case *ssa.Extract:
+		return c.elemDerived(x.Tuple, l, depth-1)
+	case *ssa.MakeInterface:
+		return c.elemDerived(x.X, l, depth-1)
+	case *ssa.ChangeType:
+		return c.elemDerived(x.X, l, depth-1)
+	case *ssa.Convert:
+		return c.elemDerived(x.X, l, depth-1)
+	case *ssa.Field:
+		return c.elemDerived(x.X, l, depth-1)
+	case *ssa.FieldAddr:
+		return c.elemDerived(x.X, l, depth-1)
+	case *ssa.Lookup:
+		return c.elemDerived(x.X, l, depth-1) || c.elemDerived(x.Index, l, depth-1)
+	case *ssa.Index:
+		return c.elemDerived(x.X, l, depth-1)
+	case *ssa.IndexAddr:
+		return c.elemDerived(x.X, l, depth-1)
+	case *ssa.Slice:
+		return c.elemDerived(x.X, l, depth-1)
+	case *ssa.TypeAssert:
+		return c.elemDerived(x.X, l, depth-1)
+	}
+	return false
+}
+
+func isErrorType(t types.Type) bool {
+	return types.Identical(t, types.Universe.Lookup("error").Type())
+}
+
+// Emission analysis: does a call made by the loop body write into an ordered
+// sink (bytes.Buffer, strings.Builder, hash, io.Writer) that exists outside the
+// iteration? The sink receiver is followed through parameters and captured
+// variables back to the loop body's call (context-sensitively, bounded depth):
+// a sink allocated by a callee, or inside the loop body, is per-iteration.
+
+// outerness of a value inside fn given which of fn's parameters / free variables are outer.
+func valueIsOuter(v ssa.Value, env map[ssa.Value]bool, base func(ssa.Value) (bool, bool), depth int) bool {
+	if depth == 0 || v == nil {
+		return false
+	}
+	if o, known := env[v]; known {
+		return o
+	}
+	if base != nil {
+		if o, known := base(v); known {
+			return o
+		}
+	}
+	switch x := v.(type) {
+	case *ssa.Global:
+		return true
+	case *ssa.Alloc, *ssa.MakeMap, *ssa.MakeSlice, *ssa.Const:
+		return false
+	case *ssa.FieldAddr:
+		return valueIsOuter(x.X, env, base, depth-1)
+	case *ssa.IndexAddr:
+		return valueIsOuter(x.X, env, base, depth-1)
+	case *ssa.UnOp:
+		return valueIsOuter(x.X, env, base, depth-1)
+	case *ssa.Phi:
+		for _, e := range x.Edges {
+			if valueIsOuter(e, env, base, depth-1) {
+				return true
+			}
+		}
+	case *ssa.MakeInterface:
+		return valueIsOuter(x.X, env, base, depth-1)
+	case *ssa.ChangeType:
+		return valueIsOuter(x.X, env, base, depth-1)
+	case *ssa.Parameter, *ssa.FreeVar:
+		return true // unknown binding: conservatively outer
+	}
+	return false
+}
+
+func (c *Ctx) emitsOuter(fn *ssa.Function, env map[ssa.Value]bool, depth int, stack map[*ssa.Function]bool) (bool, string) {
+	if depth == 0 || stack[fn] || !c.P.InPkg(fn) {
+		return false, ""
+	}
+	stack[fn] = true
+	defer delete(stack, fn)
+	found, where := false, ""
+	core.EachInstr(fn, func(i ssa.Instruction) {
+		call, ok := i.(ssa.CallInstruction)
+		if !ok || found {
+			return
+		}
+		key := core.CalleeKey(call.Common())
+		if isSinkWrite(key) {
+			if valueIsOuter(call.Common().Args[0], env, nil, 6) {
+				found, where = true, core.FuncName(fn)+" calls "+key
+			}
+			return
+		}
+		if e, w := c.callEmitsOuter(call, env, nil, depth-1, stack); e {
+			found, where = true, w
+		}
+	})
+	return found, where
+}
+
+// callEmitsOuter: the callee(s) of call write to a sink that is outer with respect to the caller's environment.
+func (c *Ctx) callEmitsOuter(call ssa.CallInstruction, env map[ssa.Value]bool, base func(ssa.Value) (bool, bool), depth int, stack map[*ssa.Function]bool) (bool, string) {
+	var callees []*ssa.Function
+	var mc *ssa.MakeClosure
+	if sc := call.Common().StaticCallee(); sc != nil {
+		callees = append(callees, sc)
+		for _, src := range traceSources(call.Common().Value) {
+			if m, ok := src.(*ssa.MakeClosure); ok {
+				mc = m
+			}
+		}
+	} else {
+		callees = core.Callees(c.G, call)
+		for _, src := range traceSources(call.Common().Value) {
+			if m, ok := src.(*ssa.MakeClosure); ok {
+				mc = m
+			}
+		}
+	}
+	for _, callee := range callees {
+		if !c.P.InPkg(callee) {
+			continue
+		}
+		cenv := map[ssa.Value]bool{}
+		args := call.Common().Args
+		if len(args) == len(callee.Params) {
+			for k, p := range callee.Params {
+				cenv[p] = valueIsOuter(args[k], env, base, 6)
+			}
+		}
+		if mc != nil && mc.Fn == callee {
+			for k, fv := range callee.FreeVars {
+				cenv[fv] = valueIsOuter(mc.Bindings[k], env, base, 6)
+			}
+		}
+		if e, w := c.emitsOuter(callee, cenv, depth, stack); e {
+			return true, w
+		}
+	}
+	return false, ""
+}
+
+func isSinkWrite(key string) bool {
+	for _, p := range []string{"bytes.Buffer.Write", "strings.Builder.Write", "hash/maphash.Hash.Write", "io.Writer.Write", "bufio.Writer.Write", "invoke.Write"} {
+		if strings.HasPrefix(key, p) {
+			return true
+		}
+	}
+	return key == "fmt.Fprintf" || key == "fmt.Fprint" || key == "fmt.Fprintln" || key == "io.WriteString"
+}
+
+// classifyLoop returns the order-sensitive constructs of a randomised loop.
+func (c *Ctx) classifyLoop(l *randLoop, tr *core.Tracer) []orderIssue {
+	var issues []orderIssue
+	inBody := func(i ssa.Instruction) bool {
+		if l.body != nil {
+			for f := i.Parent(); f != nil; f = f.Parent() {
+				if f == l.body {
+					return true
+				}
+			}
+			return false
+		}
+		return i.Parent() == l.fn && l.blocks[i.Block()] && i.Block() != l.header
+	}
+	outerCell := func(addr ssa.Value) *ssa.Alloc {
+		cell := resolveCell(addr)
+		if cell == nil {
+			return nil
+		}
+		if l.body != nil {
+			for f := cell.Parent(); f != nil; f = f.Parent() {
+				if f == l.body {
+					return nil // declared inside the body
+				}
+			}
+			return cell
+		}
+		if cell.Parent() == l.fn && l.blocks[cell.Block()] && cell.Block() != l.header {
+			return nil
+		}
+		return cell
+	}
+	// outerness of values of the loop's own frame: allocated outside the loop body (or passed in) = outer
+	baseOuter := func(v ssa.Value) (bool, bool) {
+		switch x := v.(type) {
+		case *ssa.Alloc:
+			return outerCell(x) != nil, true
+		case *ssa.FreeVar:
+			if cell := resolveCell(x); cell != nil {
+				return outerCell(x) != nil, true
+			}
+			return true, true
+		case *ssa.Parameter:
+			if l.body != nil && x.Parent() == l.body {
+				return false, true // the current element
+			}
+			return true, true
+		case *ssa.MakeMap, *ssa.MakeSlice:
+			ins := v.(ssa.Instruction)
+			if l.body == nil && ins.Parent() == l.fn && !(l.blocks[ins.Block()] && ins.Block() != l.header) {
+				return true, true
+			}
+			return false, true
+		}
+		return false, false
+	}
+	var accumulators []*ssa.Alloc
+	var fns []*ssa.Function
+	if l.body != nil {
+		fns = core.WithAnon(l.body)
+	} else {
+		fns = []*ssa.Function{l.fn}
+	}
+	nonConstOuterStore := false
+	bodyEvaluates := false // the body calls a package function whose error/bool result matters
+	for _, f := range fns {
+		core.EachInstr(f, func(i ssa.Instruction) {
+			if !inBody(i) {
+				return
+			}
+			switch x := i.(type) {
+			case *ssa.Store:
+				cell := outerCell(x.Addr)
+				if cell == nil {
+					// a store through a pointer to outer memory (field / element)
+					if fa, ok := x.Addr.(*ssa.FieldAddr); ok {
+						if _, isConst := x.Val.(*ssa.Const); isConst {
+							return
+						}
+						switch x.Val.(type) {
+						case *ssa.MakeMap, *ssa.MakeSlice:
+							return // lazy initialisation with a fresh container
+						}
+						if resolveCell(fa.X) == nil && c.elemDerived(x.Val, l, 6) && !c.elemDerived(fa.X, l, 6) {
+							nonConstOuterStore = true
+							issues = append(issues, orderIssue{x, "a value derived from the current element is stored into " + c.fieldName(fa.X.Type(), fa.Field) + " of an object that outlives the iteration: the last element visited wins"})
+						}
+					}
+					return
+				}
+				if strings.HasPrefix(cell.Comment, "jump$") || strings.HasPrefix(cell.Comment, "#") {
+					return // range-over-func control state
+				}
+				switch v := x.Val.(type) {
+				case *ssa.Const:
+					return
+				case *ssa.MakeMap, *ssa.MakeSlice:
+					return
+				case *ssa.Call:
+					if core.CalleeKey(&v.Call) == "builtin.append" {
+						if ld, ok := v.Call.Args[0].(*ssa.UnOp); ok && resolveCell(ld.X) == cell {
+							accumulators = append(accumulators, cell)
+							return
+						}
+					}
+				case *ssa.BinOp:
+					if (v.Op == token.ADD || v.Op == token.SUB || v.Op == token.OR || v.Op == token.LOR) && (isLoadOf(v.X, cell) || isLoadOf(v.Y, cell)) {
+						return // counter / accumulation by a commutative operator
+					}
+				case *ssa.UnOp:
+					if isLoadOf(v, cell) {
+						return
+					}
+				}
+				if isErrorType(x.Val.Type()) {
+					return // error propagation: the verdict is "some element fails", only the text can differ
+				}
+				if !c.elemDerived(x.Val, l, 8) {
+					return
+				}
+				nonConstOuterStore = true
+				issues = append(issues, orderIssue{x, "a value derived from the current element is assigned to the outer variable " + cell.Comment + ": which element wins depends on the iteration order"})
+			case *ssa.MapUpdate:
+				if _, isConst := x.Value.(*ssa.Const); isConst {
+					return
+				}
+				if c.elemDerived(x.Key, l, 8) {
+					return
+				}
+				issues = append(issues, orderIssue{x, "a map entry under a key that does not come from the current element is overwritten in every iteration: the last element visited wins"})
+			case ssa.CallInstruction:
+				key := core.CalleeKey(x.Common())
+				if isSinkWrite(key) {
+					if valueIsOuter(x.Common().Args[0], nil, baseOuter, 6) {
+						issues = append(issues, orderIssue{x, "bytes are written to an ordered sink (" + key + ") inside the iteration: the output depends on the iteration order"})
+					}
+					return
+				}
+				if e, w := c.callEmitsOuter(x, nil, baseOuter, 5, map[*ssa.Function]bool{}); e {
+					issues = append(issues, orderIssue{x, "the iteration calls a function that writes to an ordered sink existing outside the iteration (" + w + "): the output depends on the iteration order"})
+				}
+				var callees []*ssa.Function
+				if sc := x.Common().StaticCallee(); sc != nil {
+					callees = append(callees, sc)
+				} else {
+					callees = core.Callees(c.G, x)
+				}
+				for _, callee := range callees {
+					if !c.P.InPkg(callee) || callee == l.body {
+						continue
+					}
+					if rs := callee.Signature.Results(); rs.Len() > 0 && (isErrorType(rs.At(rs.Len()-1).Type()) || tBool(rs.At(0).Type())) {
+						bodyEvaluates = true
+					}
+					_ = callee
+				}
+			}
+		})
+	}
+	// phi-carried variables of the loop header
+	if l.body == nil {
+		for _, ins := range l.header.Instrs {
+			phi, ok := ins.(*ssa.Phi)
+			if !ok {
+				continue
+			}
+			for k, e := range phi.Edges {
+				if !l.blocks[l.header.Preds[k]] {
+					continue // initial value
+				}
+				if c.commutativeUpdate(e, phi, l, 6) {
+					continue
+				}
+				if isErrorType(phi.Type()) {
+					continue
+				}
+				if ac, ok := e.(*ssa.Call); ok && core.CalleeKey(&ac.Call) == "builtin.append" {
+					continue // checked below through its uses
+				}
+				if c.elemDerived(e, l, 8) {
+					nonConstOuterStore = true
+					issues = append(issues, orderIssue{phi, "the loop-carried variable " + phi.Comment + " is assigned a value derived from the current element: which element wins depends on the iteration order"})
+				}
+			}
+			// slices accumulated by append: sorted before use, or only measured
+			if _, isSlice := phi.Type().Underlying().(*types.Slice); isSlice {
+				if msg := c.sliceUsedUnsorted(phi, l); msg != "" {
+					issues = append(issues, orderIssue{phi, msg})
+				}
+			}
+		}
+	}
+	for _, cell := range accumulators {
+		if msg := c.cellSliceUsedUnsorted(cell, l); msg != "" {
+			issues = append(issues, orderIssue{l.at, msg})
+		}
+	}
+	// early exits
+	if l.body == nil {
+		flag := func(at ssa.Instruction) {
+			issues = append(issues, orderIssue{at, "the iteration is left early without a failure verdict (break, or a return that can be nil) although its body evaluates or assigns per element: only the elements met before the exit are taken into account, and which those are depends on the iteration order"})
+		}
+		for b := range l.blocks {
+			if b == l.header {
+				continue
+			}
+			last := b.Instrs[len(b.Instrs)-1]
+			switch last.(type) {
+			case *ssa.Return:
+				if !exitIsVerdict(b) && (nonConstOuterStore || bodyEvaluates) {
+					flag(last)
+				}
+				continue
+			case *ssa.Panic:
+				continue
+			}
+			for _, s := range b.Succs {
+				if l.blocks[s] {
+					continue // stays in the body, or continues with the next element (header)
+				}
+				if exitIsVerdict(s) {
+					continue
+				}
+				if !nonConstOuterStore && !bodyEvaluates {
+					continue // a break that only stops an existential search
+				}
+				flag(last)
+			}
+		}
+	}
+	return issues
+}
+
+func isLoadOf(v ssa.Value, cell *ssa.Alloc) bool {
+	ld, ok := v.(*ssa.UnOp)
+	return ok && ld.Op == token.MUL && resolveCell(ld.X) == cell
+}
+
+func (c *Ctx) commutativeUpdate(e ssa.Value, phi *ssa.Phi, l *randLoop, depth int) bool {
+	if e == phi {
+		return true
+	}
+	if depth == 0 {
+		return false
+	}
+	switch x := e.(type) {
+	case *ssa.Const:
+		return true
+	case *ssa.BinOp:
+		if x.Op == token.ADD || x.Op == token.OR || x.Op == token.LOR || x.Op == token.SUB {
+			return (c.commutativeUpdate(x.X, phi, l, depth-1) && !c.elemDerived(x.Y, l, 4)) || (c.commutativeUpdate(x.Y, phi, l, depth-1) && !c.elemDerived(x.X, l, 4)) ||
+				(x.X == phi || x.Y == phi)
+		}
+	case *ssa.Phi:
+		for _, ee := range x.Edges {
+			if !c.commutativeUpdate(ee, phi, l, depth-1) {
+				return false
+			}
+		}
+		return true
+	}
+	return false
+}
+
+// exitIsVerdict: the code reached after leaving the loop early returns an error or constants.
+func exitIsVerdict(b *ssa.BasicBlock) bool {
+	// In a range-over-func body (a synthetic yield function) the returned
+	// boolean is loop control, not a verdict: the exit is a verdict only if a
+	// provably non-nil error was recorded on the way out.
+	if fn := b.Parent(); strings.Contains(fn.Synthetic, "range-over-func") {
+		cur := b
+		for hops := 0; hops < 6 && cur != nil; hops++ {
+			for _, ins := range cur.Instrs {
+				if st, ok := ins.(*ssa.Store); ok && isErrorType(st.Val.Type()) && provablyNonNilError(st.Val, st) {
+					return true
+				}
+			}
+			if len(cur.Succs) != 1 {
+				break
+			}
+			cur = cur.Succs[0]
+		}
+		// the error may have been stored just before the jump that left the loop
+		for _, p := range b.Preds {
+			for _, ins := range p.Instrs {
+				if st, ok := ins.(*ssa.Store); ok && isErrorType(st.Val.Type()) && provablyNonNilError(st.Val, st) {
+					return true
+				}
+			}
+		}
+		return false
+	}
+	for hops := 0; hops < 6; hops++ {
+		last := b.Instrs[len(b.Instrs)-1]
+		switch x := last.(type) {
+		case *ssa.Return:
+			for _, r := range x.Results {
+				if k, isConst := r.(*ssa.Const); isConst {
+					if isErrorType(r.Type()) && k.IsNil() && len(x.Results) == 1 {
+						return false // `return nil`: success declared before all elements were seen
+					}
+					continue
+				}
+				if isErrorType(r.Type()) {
+					if ld, ok := r.(*ssa.UnOp); ok && ld.Op == token.MUL && resolveCell(ld.X) != nil {
+						// named result: judge the nearest store on the way to this return
+						if sv := nearestStore(x, resolveCell(ld.X)); sv != nil {
+							if !provablyNonNilError(sv.Val, sv) {
+								return false
+							}
+							continue
+						}
+						return false
+					}
+					if !provablyNonNilError(r, x) {
+						return false
+					}
+					continue
+				}
+				// named results loaded from cells
+				if ld, ok := r.(*ssa.UnOp); ok && ld.Op == token.MUL {
+					continue
+				}
+				return false
+			}
+			return true
+		case *ssa.Panic:
+			return true
+		}
+		if len(b.Succs) != 1 {
+			return false
+		}
+		b = b.Succs[0]
+	}
+	return false
+}
+
+// sliceUsedUnsorted: a slice accumulated in the loop (phi form) must be sorted before any order-revealing use.
+func (c *Ctx) sliceUsedUnsorted(phi *ssa.Phi, l *randLoop) string {
+	var uses []ssa.Instruction
+	seen := map[ssa.Value]bool{}
+	var collect func(v ssa.Value)
+	collect = func(v ssa.Value) {
+		if seen[v] || v.Referrers() == nil {
+			return
+		}
+		seen[v] = true
+		for _, r := range *v.Referrers() {
+			if l.blocks[r.Block()] && r.Block() != l.header {
+				if ac, ok := r.(*ssa.Call); ok && core.CalleeKey(&ac.Call) == "builtin.append" {
+					collect(ac)
+				}
+				continue
+			}
+			switch x := r.(type) {
+			case *ssa.Phi:
+				collect(x)
+			default:
+				uses = append(uses, r)
+			}
+		}
+	}
+	collect(phi)
+	return c.judgeSliceUses(uses, func(v ssa.Value) bool { return seen[v] })
+}
+
+func (c *Ctx) cellSliceUsedUnsorted(cell *ssa.Alloc, l *randLoop) string {
+	var uses []ssa.Instruction
+	vals := map[ssa.Value]bool{}
+	for _, fn := range core.WithAnon(cell.Parent()) {
+		core.EachInstr(fn, func(i ssa.Instruction) {
+			ld, ok := i.(*ssa.UnOp)
+			if !ok || ld.Op != token.MUL || resolveCell(ld.X) != cell || ld.Referrers() == nil {
+				return
+			}
+			vals[ld] = true
+			for _, r := range *ld.Referrers() {
+				if ac, ok := r.(*ssa.Call); ok && core.CalleeKey(&ac.Call) == "builtin.append" && ac.Call.Args[0] == ld {
+					continue
+				}
+				uses = append(uses, r)
+			}
+		})
+	}
+	return c.judgeSliceUses(uses, func(v ssa.Value) bool { return vals[v] })
+}
+
+func (c *Ctx) judgeSliceUses(uses []ssa.Instruction, isSlice func(ssa.Value) bool) string {
+	var sortCall ssa.Instruction
+	for _, u := range uses {
+		if call, ok := u.(*ssa.Call); ok {
+			key := core.CalleeKey(&call.Call)
+			if strings.HasPrefix(key, "slices.Sort") || strings.HasPrefix(key, "sort.") {
+				sortCall = call
+			}
+		}
+	}
+	for _, u := range uses {
+		switch x := u.(type) {
+		case *ssa.Call:
+			key := core.CalleeKey(&x.Call)
+			switch {
+			case key == "builtin.len" || key == "builtin.cap":
+				continue
+			case strings.HasPrefix(key, "slices.Sort") || strings.HasPrefix(key, "sort."):
+				continue
+			case key == "errors.Join" || strings.HasPrefix(key, "fmt.Errorf") || key == "fmt.Sprintf" || key == "strings.Join":
+				// only the text of an error can depend on the order
+				continue
+			}
+		case *ssa.MakeInterface:
+			// handed to fmt for an error text
+			onlyFmt := true
+			if x.Referrers() != nil {
+				for _, r := range *x.Referrers() {
+					if st, ok := r.(*ssa.Store); ok {
+						_ = st
+						continue
+					}
+					onlyFmt = false
+				}
+			}
+			if onlyFmt {
+				continue
+			}
+		case *ssa.Store, *ssa.DebugRef:
+			continue
+		case *ssa.BinOp:
+			continue // comparison with nil
+		case *ssa.Return:
+			if sortCall != nil && core.Dominates(sortCall, x) {
+				continue
+			}
+			// a returned error list (errors) is fine; a returned name list is not
+		}
+		if sortCall != nil && core.Dominates(sortCall, u) {
+			continue
+		}
+		return fmt.Sprintf("a slice filled in randomised order is used at %s without being sorted first", c.pos(u))
+	}
+	return ""
+}
+
 func (c *Ctx) ruleOrderInsensitive(rule string, closures ...string) {
-	// placeholder until the classifier is built; registers nothing
+	seen := map[*ssa.Function]bool{}
+	n := 0
+	for _, name := range closures {
+		tr := c.Tracer(rule, name)
+		for _, fn := range c.Closure(rule, name).Sorted() {
+			if seen[fn] {
+				continue
+			}
+			seen[fn] = true
+			for k, l := range c.randomLoops(fn) {
+				n++
+				issues := c.classifyLoop(l, tr)
+				construct := fmt.Sprintf("%s:%s#%d", core.FuncName(fn), strings.ReplaceAll(l.kind, " ", "-"), k+1)
+				if len(issues) == 0 {
+					c.R.OK(rule, construct, c.pos(l.at), l.kind+": the body only inserts under element keys, sets flags, counts, accumulates into a slice sorted before use, calls functions that emit nothing, and leaves early only with a verdict")
+					continue
+				}
+				for _, is := range issues {
+					c.R.Bad(rule, construct, c.pos(is.at), l.kind+" at "+c.pos(l.at)+": "+is.msg)
+				}
+			}
+		}
+	}
+	c.R.Info["randomised_iterations_"+strings.Join(closures, "+")] = n
+	min := map[string]int{"EV+RES+MAR": 20, "MAR": 3, "INF": 2}[strings.Join(closures, "+")]
+	c.R.Floor(rule, "order-randomised iterations in "+strings.Join(closures, "+"), n, min)
+}
+
+// provablyNonNilError: the returned error is a freshly constructed error, or the return is guarded by `err != nil`.
+func provablyNonNilError(v ssa.Value, at ssa.Instruction) bool {
+	for _, src := range traceSources(v) {
+		if call, ok := src.(*ssa.Call); ok {
+			key := core.CalleeKey(&call.Call)
+			if key == "fmt.Errorf" || key == "errors.New" {
+				continue
+			}
+		}
+		if mi, ok := src.(*ssa.MakeInterface); ok {
+			_ = mi
+			continue
+		}
+		guarded := false
+		for _, g := range guardsOf(at) {
+			x, k, equal, ok := eqConst(g)
+			if ok && k.IsNil() && !equal && (x == src || x == v || sharesSource(x, v)) {
+				guarded = true
+			}
+		}
+		if !guarded {
+			return false
+		}
+	}
+	return true
+}
+
+// nearestStore: the last store to cell on the straight-line predecessor chain ending at ret.
+func nearestStore(ret *ssa.Return, cell *ssa.Alloc) *ssa.Store {
+	b := ret.Block()
+	for hops := 0; hops < 6 && b != nil; hops++ {
+		for k := len(b.Instrs) - 1; k >= 0; k-- {
+			if st, ok := b.Instrs[k].(*ssa.Store); ok && resolveCell(st.Addr) == cell {
+				return st
+			}
+		}
+		if len(b.Preds) != 1 {
+			return nil
+		}
+		b = b.Preds[0]
+	}
+	return nil
 }
